@@ -59,7 +59,46 @@ func c09Headers(inst *sh.Inst) []c09Hdr {
 	tamperedPayload := parts[0] + "." + parts[1][:len(parts[1])-2] + "AA" + "." + parts[2]
 	tamperedSig := parts[0] + "." + parts[1] + "." + parts[2][:len(parts[2])-2] + "AA"
 	noneHdr := "eyJhbGciOiJub25lIiwidHlwIjoiSldUIn0" // {"alg":"none","typ":"JWT"}
-	return []c09Hdr{
+	// every combination of one certain defect (foreign key, tampered signature, expired) with the optional
+	// time claims iat / nbf absent, in the past or in the future: a second, "softer" validation error
+	// must never mask the first
+	var combos []c09Hdr
+	for _, defect := range []string{"other-key", "signature-tampered", "expired"} {
+		for _, iat := range []string{"absent", "past", "future"} {
+			for _, nb := range []string{"absent", "past", "future"} {
+				if iat == "absent" && nb == "absent" {
+					continue // the plain variants are in the list below
+				}
+				cl := jwt.MapClaims{"exp": now.Add(time.Hour).Unix(), "iss": "simpleiot", "jti": "someuser"}
+				if defect == "expired" {
+					cl["exp"] = now.Add(-time.Hour).Unix()
+				}
+				switch iat {
+				case "past":
+					cl["iat"] = now.Add(-2 * time.Hour).Unix()
+				case "future":
+					cl["iat"] = now.Add(24 * time.Hour).Unix()
+				}
+				switch nb {
+				case "past":
+					cl["nbf"] = now.Add(-2 * time.Hour).Unix()
+				case "future":
+					cl["nbf"] = now.Add(24 * time.Hour).Unix()
+				}
+				var k interface{} = key
+				if defect == "other-key" {
+					k = []byte("another-key-another-key")
+				}
+				tok := mk(jwt.SigningMethodHS256, cl, k)
+				if defect == "signature-tampered" {
+					ps := strings.Split(tok, ".")
+					tok = ps[0] + "." + ps[1] + "." + ps[2][:len(ps[2])-2] + "AA"
+				}
+				combos = append(combos, c09Hdr{defect + "+iat-" + iat + "+nbf-" + nb, "Bearer " + tok, true, false})
+			}
+		}
+	}
+	return append([]c09Hdr{
 		{"absent", "", false, false},
 		{"empty", "", true, false},
 		{"the-auth-token", c09Token, true, true},
@@ -92,7 +131,7 @@ func c09Headers(inst *sh.Inst) []c09Hdr {
 		{"numeric-jti", "Bearer " + numJti, true, false},
 		{"garbage", "Bearer a.b.c", true, false},
 		{"nul", "Bearer \x00", true, false},
-	}
+	}, combos...)
 }
 
 // c09InstanceKey reads the signing key the way an attacker could not: straight
@@ -186,7 +225,7 @@ func c09HTTP(r *mc.Report, thorough bool) {
 	universe := []string{root, "n1", "nx"}
 	before, _ := inst.Snap(universe)
 
-	p := r.Part("http-unauthenticated", fmt.Sprintf("%d methods x %d paths under /v1/nodes x %d invalid Authorization header values (absent, malformed, wrong scheme/case, token variants, expired, other key, HS384/HS512 with the right key, alg none, tampered, truncated, missing/odd claims) x %d bodies: status 401, no message on the bus, store unchanged", len(methods), len(paths), len(hdrs), len(bodies)))
+	p := r.Part("http-unauthenticated", fmt.Sprintf("%d methods x %d paths under /v1/nodes x %d invalid Authorization header values (absent, malformed, wrong scheme/case, token variants, expired, other key, HS384/HS512 with the right key, alg none, tampered, truncated, missing/odd claims, and every combination of {other key, tampered signature, expired} with iat / nbf absent, past or future) x %d bodies: status 401, no message on the bus, store unchanged", len(methods), len(paths), len(hdrs), len(bodies)))
 	for _, h := range hdrs {
 		if h.valid {
 			continue
